@@ -218,6 +218,15 @@ func reachFromHeader(l *Loop, blocked EdgeSet) map[*ssa.BasicBlock]bool {
 }
 
 func isLastOf(v, e ssa.Value) bool {
+	// an accessor that returns the last element of one of its parameters
+	if c, ok := v.(*ssa.Call); ok {
+		if callee := c.Call.StaticCallee(); callee != nil {
+			if k, isAcc := lastAccessorParam(callee); isAcc && k < len(c.Call.Args) {
+				return Equiv(c.Call.Args[k], e)
+			}
+		}
+		return false
+	}
 	ld, ok := v.(*ssa.UnOp)
 	if !ok || ld.Op != token.MUL {
 		return false
@@ -405,3 +414,33 @@ func ChainLoopsSSA(fn *ssa.Function) []ChainLoop2 {
 func (c ChainLoop2) String() string {
 	return fmt.Sprintf("level-%d chain over %s", c.Level, c.Elem.Name())
 }
+
+// lastAccessorParam: fn returns, on every path, p[len(p)-1] for its parameter p (index k).
+func lastAccessorParam(fn *ssa.Function) (int, bool) {
+	if fn.Blocks == nil || fn.Signature.Results().Len() != 1 {
+		return 0, false
+	}
+	k := -1
+	for _, b := range fn.Blocks {
+		for _, in := range b.Instrs {
+			ret, ok := in.(*ssa.Return)
+			if !ok {
+				continue
+			}
+			found := -1
+			for i, prm := range fn.Params {
+				if _, isCall := ret.Results[0].(*ssa.Call); !isCall && isLastOf(ret.Results[0], prm) {
+					found = i
+				}
+			}
+			if found < 0 || (k >= 0 && k != found) {
+				return 0, false
+			}
+			k = found
+		}
+	}
+	return k, k >= 0
+}
+
+// LastAccessorParam is the exported form of lastAccessorParam.
+func LastAccessorParam(fn *ssa.Function) (int, bool) { return lastAccessorParam(fn) }
